@@ -692,7 +692,7 @@ func (fc *FnCtx) applyFrame(st *State, env *specEnv, con *Contract) {
 		}
 		// a trusted repository function without an assigns clause: its frame is what its body
 		// (transitively) stores to, not "nothing"
-		if con.Trusted && !con.Lib {
+		if (con.Trusted || con.WriteSetFrame) && !con.Lib {
 			if fn := fc.eng.allFuncs[con.Name]; fn != nil && len(fn.Blocks) > 0 {
 				fc.havocWrites(st, fc.eng.writeSetOf(fc, fn))
 				return
@@ -874,7 +874,7 @@ func (fc *FnCtx) calleeFrameKeys(c *ssa.CallCommon) (keys []string, all bool) {
 		return nil, true
 	}
 	if !con.HasAssigns {
-		if con.Trusted && !con.Lib && !con.Pure {
+		if (con.Trusted || con.WriteSetFrame) && !con.Lib && !con.Pure {
 			if fn := fc.eng.allFuncs[con.Name]; fn != nil && len(fn.Blocks) > 0 {
 				ws := fc.eng.writeSetOf(fc, fn)
 				for k := range ws.keys {
